@@ -101,6 +101,7 @@ def run_names(ctx, spec):
         if out is None:
             raise RuntimeError("dataset child failed rc=%s: %s" % (rc, err))
         res = out["results"]
+        bundled_cols = {}
         for si, what, name, sp, unpack in plan_:
             r = res[si]
             cid = {"kind": "names", "name": name, "spelling": sp, "unpack": unpack, "what": what, "seed": ctx.seed}
@@ -131,6 +132,12 @@ def run_names(ctx, spec):
                     continue
                 if r["requests"] or [e for e in r["audit"] if e[0] == "request"]:
                     ctx.violation("bundled_dataset_used_the_network", cid, {"requests": r["requests"]})
+                    continue
+                # unpacking must return exactly the two columns of what the plain load returns, in order
+                if not unpack:
+                    bundled_cols[name] = d.get("col_sha")
+                elif bundled_cols.get(name) and [c_["sha"] for c_ in d["tuple"]] != bundled_cols[name]:
+                    ctx.violation("unpacked_columns_differ_from_the_array_columns", cid, {"data": d, "columns": bundled_cols[name]})
                     continue
                 ctx.setadd("bundled_content", "%s:%s" % (name, d.get("sha") or d["tuple"][0]["sha"]))
                 ctx.nontriv(name, sp, unpack)
